@@ -149,7 +149,8 @@ def gen(cls, idx, rng, tier):
     if t["mode"] == "arbitrary":
         fns = ["rde"] * 3
     else:
-        fns = ["oc", "rde", "mt", "oc", "mt"]
+        fns = ["oc", "rde", "mt", "oc", "mt",
+               rng.choice(["occ", "occ_noraise"])]
         if t["mode"] == "orth":
             fns.append("rde_noalias")
     t["calls"] = [(f, targets(rng, n)) for f in fns]
@@ -225,7 +226,7 @@ def all_keys(t, salt):
         yield spread(v, pos) | fk | noise
 
 
-def equivalent(ctx, t, old, new, Routes, what):
+def equivalent(ctx, t, old, new, Routes, what, merging_only=False):
     matched = 0
     orig_km = {(e.key, e.mask) for e in old}
     for key in all_keys(t, len(old)):
@@ -237,7 +238,9 @@ def equivalent(ctx, t, old, new, Routes, what):
         ctx.hit("equivalence_keys")
         if n is None:
             ctx.hit("default_routed_key")
-            check(default_routable(o, Routes), "matched-key-dropped",
+            # (the merging step alone removes nothing)
+            check(default_routable(o, Routes) and not merging_only,
+                  "matched-key-dropped",
                   "%s: key %#010x matched %s in the original, matches nothing "
                   "in the result and is not default-routable" %
                   (what, key, o), call=what)
@@ -264,6 +267,11 @@ def call_min(mods, fn, table, target):
         return rde.minimise(table, target, check_for_aliases=False)
     if fn == "mt":
         return mm.minimise_table(table, target)
+    if fn == "occ":
+        # the merging step on its own (no default-route removal after it)
+        return oc.ordered_covering(table, target)[0]
+    if fn == "occ_noraise":
+        return oc.ordered_covering(table, target, no_raise=True)[0]
     raise AssertionError(fn)
 
 
@@ -298,15 +306,18 @@ def judge_call(ctx, mods, t, fn, old, target, Routes, MFE, what):
     new = list(new)
     check(len(new) <= len(old), "result-longer", "%s: %d -> %d entries" %
           (what, len(old), len(new)))
-    if target is not None:
+    if target is not None and fn != "occ_noraise":
         check(len(new) <= target, "target-missed",
               "%s returned %d entries for target %d" % (what, len(new),
                                                         target))
+    if fn == "occ_noraise":
+        ctx.hit("no_raise_call")
     for e in new:
         check(all(isinstance(r, Routes) for r in e.route) and
               0 <= e.key <= 0xffffffff and 0 <= e.mask <= 0xffffffff and
               e.key & ~e.mask == 0, "malformed-entry", "%s: %r" % (what, e))
-    matched = equivalent(ctx, t, old, new, Routes, what)
+    matched = equivalent(ctx, t, old, new, Routes, what,
+                         merging_only=fn.startswith("occ"))
     if len(t["pos"]) <= 8 and t["mode"] == "orth":
         # cross-examination of this oracle, never a verdict: the library's
         # own equivalence helper has to agree on tables it is defined for
